@@ -727,6 +727,28 @@ def _mono_nonneg(m):
     return True
 
 
+# standing assumptions on sizes: grids have at least 3 points, contour integrals at least one node
+ASSUME_MIN = {("s", "N"): 3, ("s", "Nold"): 3, ("s", "Nnew"): 3, ("s", "M"): 1, ("s", "n"): 0}
+
+
+def _linear_sign(d):
+    """d = a*X + b with X one size symbol bounded below by ASSUME_MIN: (d>0 always, d>=0 always, d<0 always, d<=0 always)"""
+    ats = list(d.atoms())
+    if len(ats) != 1 or ats[0] not in ASSUME_MIN:
+        return None
+    x = ats[0]
+    a = d.t.get(((x, 1),))
+    b = d.t.get((), GQ(0))
+    if a is None or len(d.t) > 2 or a.im != 0 or b.im != 0 or any(m not in ((), ((x, 1),)) for m in d.t):
+        return None
+    v = a.re * ASSUME_MIN[x] + b.re  # value at the smallest admissible size
+    if a.re > 0:
+        return (v > 0, v >= 0, False, False)
+    if a.re < 0:
+        return (False, False, v < 0, v <= 0)
+    return None
+
+
 def poly_pos(p):
     """non-negative terms only, at least one of them strictly positive: p > 0"""
     return bool(p.t) and poly_nonneg(p) and any(all(_atom_pos(a) and (e > 0 or True) for a, e in m) for m in p.t)
@@ -1044,6 +1066,17 @@ def ind(op, lhs, rhs):
         if c0_.im == 0 and all(_atom_pos(a) for a, _ in m0):
             v = {"le": c0_.re <= 0, "lt": c0_.re < 0, "eq": False}[op]
             return Poly.const(1 if v else 0)
+    sg = _linear_sign(d)
+    if sg is not None:
+        lo_pos, lo_nonneg, hi_neg, hi_nonpos = sg
+        if lo_pos:  # d > 0 always
+            return Poly()
+        if hi_neg:  # d < 0 always
+            return Poly() if op == "eq" else Poly.const(1)
+        if lo_nonneg and op == "lt":
+            return Poly()
+        if hi_nonpos and op == "le":
+            return Poly.const(1)
     if poly_pos(d):  # lhs - rhs > 0 always
         return Poly()
     if poly_pos(-d):  # lhs - rhs < 0 always
